@@ -1,12 +1,13 @@
 package main
 
 import (
-	"strconv"
 	"fmt"
 	"go/ast"
 	"go/types"
 	"sort"
+	"strconv"
 	"strings"
+	"sync"
 
 	"golang.org/x/tools/go/ssa"
 )
@@ -878,11 +879,28 @@ func (r *FnRun) applyContract(st *State, site ssa.Instruction, c *Contract, name
 		} else if results[0].K == KIface {
 			ref = results[0].Pay
 		}
-		st.assume(sx(">=", sx("rootid", ref), old.alloc))
+		// (a nil result is allowed: `fresh` says that a non-nil result is newly allocated; stating it
+		// unconditionally made the nil-result branch of such a callee - the error path of os.ReadFile,
+		// for one - contradictory, i.e. everything after it vacuously verified: DESIGN 11.6b)
+		isNil := sEq(ref, "null")
+		if results[0].K == KIface {
+			// a non-nil interface result holds a newly allocated (non-null) object
+			isNil = sEq(results[0].Tag, "0")
+		}
+		st.assume(sOr(isNil, sAnd(sNot(sEq(ref, "null")), sx(">=", sx("rootid", ref), old.alloc))))
 		st.assume(sOr(sEq(ref, "null"), sx("(_ is obj)", ref))) // a freshly allocated result is a whole object
 	}
 	env.old = old
 	for _, en := range c.Ensures {
+		if auditProp != "" && c.Pkg != "" && !c.Trusted && !c.NoBody && !clauseServes(en, c, auditProp) {
+			// attribution audit (GOVC_FOREIGN_AUDIT): a verified callee's clause that is not attributed
+			// to the property being checked is not assumed; obligations that fail in this mode depend
+			// on a clause that this property's own check would never report
+			auditMu.Lock()
+			auditSkipped[name+" :: "+trunc(en.Src, 100)]++
+			auditMu.Unlock()
+			continue
+		}
 		g := env.eval(en.Expr)
 		if env.err != nil {
 			r.errorf("%s:%d: %v", en.File, en.Line, env.err)
@@ -898,6 +916,12 @@ func (r *FnRun) applyContract(st *State, site ssa.Instruction, c *Contract, name
 	}
 	return Val{K: KTuple, T: resT, Fs: results}
 }
+
+var (
+	auditProp    string
+	auditMu      sync.Mutex
+	auditSkipped = map[string]int{}
+)
 
 // ---------- builtins ----------
 
@@ -1164,7 +1188,9 @@ func (r *FnRun) incBlocked(st *State) {
 
 func (r *FnRun) recordRecv(st *State, ch string, v Val) {
 	cnt := sx("fld", ch, "902")
-	h := sx("store", st.heap["I"], cnt, sAdd(sx("select", st.heap["I"], cnt), "1"))
+	pc := sx("fld", ch, "908")
+	h := sx("store", st.heap["I"], pc, sAdd(sx("select", st.heap["I"], pc), "1"))
+	h = sx("store", h, cnt, sAdd(sx("select", st.heap["I"], cnt), "1"))
 	if v.K == KInt {
 		sum := sx("fld", ch, "901")
 		h = sx("store", h, sum, sAdd(sx("select", st.heap["I"], sum), v.S))
@@ -1235,6 +1261,9 @@ func (r *FnRun) execSelect(st *State, x *ssa.Select) {
 			v := r.freshVal(st, tu.At(ri).Type(), fmt.Sprintf("sel.r%d", i))
 			fs = append(fs, v)
 			ri++
+			// the select listens on this channel whichever case is taken
+			pc := sx("fld", ch.S, "908")
+			r.setHeap(st, "I", sx("store", st.heap["I"], pc, sAdd(sx("select", st.heap["I"], pc), "1")))
 			// ghost accounting only when this case is the one taken
 			cnt := sx("fld", ch.S, "902")
 			sum := sx("fld", ch.S, "901")
@@ -1283,6 +1312,15 @@ func (r *FnRun) loopEnv(st *State, b *ssa.BasicBlock) *Env {
 func (r *FnRun) checkInvariants(st *State, li *loopInfo, kind string, b *ssa.BasicBlock) {
 	if li.spec == nil {
 		return
+	}
+	if len(li.spec.Invariants) > 0 && r.C.Opts[fmt.Sprintf("dead_loop_%s.%d", strings.TrimPrefix(kind, "inv."), li.ord)] == "" {
+		// vacuity guard: some path must reach the loop (init) and some path must come round it (keep);
+		// otherwise the invariant obligations of that kind are vacuously true
+		what := map[string]string{"inv.init": "loop_entry", "inv.keep": "loop_back"}[kind]
+		cv := r.oblig(st, "cover", fmt.Sprintf("%s#%d", what, li.ord), nil, "false", "some path reaches this point of the loop under the accumulated hypotheses (at least one must not be refutable)", r.C.Serves)
+		cv.Cover = true
+		cv.AnyPath = true
+		cv.Pos = r.W.Prog.Fset.Position(b.Instrs[0].Pos())
 	}
 	for i, inv := range li.spec.Invariants {
 		env := r.loopEnv(st, b)
@@ -1543,11 +1581,68 @@ func (r *FnRun) havocLoop(st *State, li *loopInfo, b *ssa.BasicBlock) {
 
 // ---------- function entry / exit ----------
 
+// successReturn: the return statement reports success - every error-typed result is the constant nil
+// (or the function has no error result).  Only these must be reachable: `if err != nil { return err }`
+// after a callee whose trusted specification never fails is legitimately dead.
+func (r *FnRun) successReturn(site ssa.Instruction) bool {
+	ret, ok := site.(*ssa.Return)
+	if !ok {
+		return false
+	}
+	errT := types.Universe.Lookup("error").Type()
+	for _, op := range ret.Results {
+		if types.Identical(op.Type(), errT) {
+			c, isConst := op.(*ssa.Const)
+			if !isConst || !c.IsNil() {
+				return false
+			}
+		}
+	}
+	return true
+}
+
+// returnOrdinal: 1-based position of a return instruction among the returns of the function under
+// verification, in source order (0 if the instruction is not one of them).
+func (r *FnRun) returnOrdinal(site ssa.Instruction) int {
+	ret, ok := site.(*ssa.Return)
+	if !ok || ret.Parent() != r.Fn {
+		return 0
+	}
+	var rets []*ssa.Return
+	for _, b := range r.Fn.Blocks {
+		for _, in := range b.Instrs {
+			if x, ok := in.(*ssa.Return); ok {
+				rets = append(rets, x)
+			}
+		}
+	}
+	sort.SliceStable(rets, func(i, j int) bool { return rets[i].Pos() < rets[j].Pos() })
+	for i, x := range rets {
+		if x == ret {
+			return i + 1
+		}
+	}
+	return 0
+}
+
 func (r *FnRun) atReturn(st *State, res []Val, site ssa.Instruction) {
 	// vacuity guard: some return of the function must be reachable
 	cv := r.oblig(st, "cover", "return", nil, "false", "some return is reachable under the accumulated hypotheses (at least one path must not be refutable)", r.C.Serves)
 	cv.Cover = true
 	cv.AnyPath = true
+	// ... and so must EVERY return statement: a return that no path reaches under the contracts in
+	// force (inconsistent specs, an engine slip, a precondition that is too strong) would make every
+	// postcondition checked there vacuously true
+	if k := r.returnOrdinal(site); k > 0 && r.successReturn(site) {
+		if why := r.C.Opts[fmt.Sprintf("dead_return.%d", k)]; why != "" {
+			r.Assump[fmt.Sprintf("%s: return statement #%d is declared dead code (%s); no path to it is required", r.shortFn(), k, why)] = true
+			goto afterSiteCover
+		}
+		cs := r.oblig(st, "cover", fmt.Sprintf("return_site#%d", k), site, "false", "this return statement is reachable under the accumulated hypotheses (at least one path to it must not be refutable)", r.C.Serves)
+		cs.Cover = true
+		cs.AnyPath = true
+	}
+afterSiteCover:
 	env := &Env{r: r, st: st, old: r.entry, vars: map[string]Val{}, fn: r.Fn}
 	env.pkg = r.entryEnv.pkg
 	for k, v := range r.entryEnv.vars {
